@@ -737,7 +737,7 @@ static void c_body() {
         void* p = NULL; int eff = s.size; size_t sz = (size_t) s.size; const char* src;
         int rcv0 = g_T[0].received, rcv1 = g_T[1].received;
         switch (s.op) {
-        case CO_SWITCH:       // the test installs another malloc allocator (never while an injection is armed)
+        case CO_SWITCH:       // the test installs another malloc allocator (between injections, or while a countdown is pending and not expired)
             if (s.n == 0) setCurrentMallocAllocator(defaultMallocAllocator());
             else {
                 TaggedFailable& t = g_T[s.n - 1];
@@ -1095,6 +1095,34 @@ static void sec_c_realloc_null(vf::Ctx& c) {
     c.nontrivial("reallocnull:" + std::to_string(c.idx));
 }
 
+// ---- section (complete): the test installs another malloc allocator WHILE a countdown is pending (armed, certainly not expired:
+// fewer malloc-type requests than the countdown value, no realloc in between). The countdown goes on counting; the injection then
+// either expires and is cleared, or is cleared before it expires. Either way "clearing the injections restores normal behaviour":
+// the requests after the clear are answered by the allocator the test installed last, under that allocator's own designations.
+static void sec_c_switch_pending(vf::Ctx& c) {
+    uint64_t i = c.idx; CBuilder b; vf::Rng r(0xC15F, c.idx, 7);
+    int a0 = (int) (i % 3); i /= 3; int a1 = (a0 + 1 + (int) (i % 2)) % 3; i /= 2;
+    int n = 1 + (int) (i % 3); i /= 3;                 // countdown value
+    int k = (int) (i % 3) % n; i /= 3;                 // malloc-type requests between arming and the switch (k < n)
+    int path = (int) (i % 3); i /= 3;                  // 0 cleared at once after the switch, 1 cleared before expiry after further requests (if any fit), 2 expires, two failing requests, cleared
+    bool desig = i & 1;
+    static const int OPS[] = { CO_MALLOC, CO_MALLOC_NL, CO_CALLOC, CO_STRDUP_NL, CO_STRNDUP, CO_CALLOC_NL };
+    int o = (int) (c.idx % 6);
+    { CStep* s = b.push(CO_SWITCH); s->n = a0; }
+    b.malloc_type(r, OPS[o++ % 6]);
+    b.push(CO_SET_COUNTDOWN)->n = n;
+    for (int j = 0; j < k; j++) b.malloc_type(r, OPS[o++ % 6]);
+    int reach = 0;                                     // requests that reach the new allocator before the clear
+    if (path == 1) reach = n - 1 - k; else if (path == 2) reach = n - 1 - k;      // request number n is the first one the out-of-memory answers
+    { CStep* s = b.push(CO_SWITCH); s->n = a1; if (a1 && desig) s->d[0] = reach + 2; }
+    for (int j = 0; j < reach; j++) b.malloc_type(r, OPS[o++ % 6]);
+    if (path == 2) { b.malloc_type(r, OPS[o++ % 6]); b.malloc_type(r, OPS[o++ % 6]); }
+    b.push(CO_RESTORE);
+    for (int j = 0; j < 3; j++) b.malloc_type(r, OPS[o++ % 6]);
+    c_run_and_judge(c, b, "cswitchpending:" + std::to_string(c.idx));
+    c.count(path == 2 ? "c_allocator_switched_while_countdown_pending_then_expired_then_cleared" : "c_allocator_switched_while_countdown_pending_then_cleared_unexpired");
+}
+
 // ---- section: a global designation registered AFTER some allocations were already made (complete small table).
 // "the n-th allocation overall": the index counts every allocation since the allocator was created or cleared,
 // whether or not a designation was pending at the time. Two designations, registered at different moments.
@@ -1104,15 +1132,19 @@ static void sec_late_global(vf::Ctx& c) {
     int d1 = 1 + (int) (i % 4); i /= 4;          // first designation: overall index before + d1
     int gap = (int) (i % 3); i /= 3;             // allocations between the two registrations
     int d2 = 1 + (int) (i % 3); i /= 3;          // second designation: (allocations so far) + d2 (skipped when it coincides with the first)
-    bool cleared_first = i & 1;                   // run a consumed designation + clearFailedAllocs() before the scenario (counter restarts at 0)
+    bool cleared_first = i & 1; i >>= 1;          // run a consumed designation + clearFailedAllocs() before the scenario (counter restarts at 0)
+    int stale = (int) (i % 4);                    // also designate an overall index that has ALREADY passed: 1 the allocation just made, 2 the first one, 3 index 0 — no later allocation is "the n-th"
     c.begin([=] { return vf::J().k("allocations_before_first_designation", before).k("first_designation_overall_index", before + d1).k("allocations_between_registrations", gap)
-                  .k("second_designation_offset", d2).k("after_clear", cleared_first).str(); });
+                  .k("second_designation_offset", d2).k("after_clear", cleared_first).k("also_designated_passed_index", stale == 0 ? -1 : stale == 1 ? before : stale == 2 ? 1 : 0).str(); });
     FailableMemoryAllocator a("late", "lalloc", "lfree");
     std::vector<char*> blocks;
     auto alloc = [&](int line) { char* p = a.alloc_memory(8, "late.c", (size_t) line); if (p) blocks.push_back(p); return p != nullptr; };
     if (cleared_first) { alloc(1); a.failAllocNumber(2); alloc(2); alloc(3); a.clearFailedAllocs(); }
     int n = 0; std::set<int> want;
     for (int k = 0; k < before; k++) { n++; if (!alloc(10)) c.violation("late-global:undesignated-failed:before-any-designation", "allocation " + std::to_string(n) + " returned NULL although nothing is designated"); }
+    int stale_n = stale == 1 ? before : stale == 2 ? 1 : 0;
+    bool stale_set = stale != 0 && (stale == 3 || before >= 1);
+    if (stale_set) { a.failAllocNumber(stale_n); c.count("late_global_designations_of_an_index_already_passed"); }
     int n1 = before + d1; a.failAllocNumber(n1); want.insert(n1);
     int made = 0;
     while (made < gap && n + 1 < n1) { n++; made++; if (!alloc(11)) c.violation("late-global:undesignated-failed:between-registrations", "allocation " + std::to_string(n) + " returned NULL, designated is " + std::to_string(n1)); }
@@ -1122,7 +1154,7 @@ static void sec_late_global(vf::Ctx& c) {
         n++;
         bool ok = alloc(12), designated = want.count(n) != 0;
         if (designated && ok) c.violation("late-global:designated-succeeded", "allocation " + std::to_string(n) + " overall is designated (designations " + std::to_string(n1) + (n2 != n1 ? "," + std::to_string(n2) : "") + ", " + std::to_string(before) + " allocations preceded the first registration) but succeeded");
-        if (!designated && !ok) c.violation("late-global:undesignated-failed", "allocation " + std::to_string(n) + " overall returned NULL, designated are " + std::to_string(n1) + (n2 != n1 ? "," + std::to_string(n2) : ""));
+        if (!designated && !ok) c.violation(stale_set ? "late-global:undesignated-failed:index-already-passed-was-designated" : "late-global:undesignated-failed", "allocation " + std::to_string(n) + " overall returned NULL, designated are " + std::to_string(n1) + (n2 != n1 ? "," + std::to_string(n2) : ""));
     }
     a.clearFailedAllocs();
     for (char* p : blocks) a.free_memory(p, 8, "late.c", 99);
@@ -1140,9 +1172,10 @@ int main(int argc, char** argv) {
         { "c_countdown_enumeration", cenum_total, cenum_total, sec_c_enum, true },
         { "c_realloc_null_in_oom", 24, 24, sec_c_realloc_null, true },
         { "c_episodes_x_malloc_allocators", 6 * 6 * 6, 6 * 6 * 6, sec_c_switch_enum, true },
+        { "c_allocator_switch_while_countdown_pending", 3 * 2 * 3 * 3 * 3 * 2, 3 * 2 * 3 * 3 * 3 * 2, sec_c_switch_pending, true },
         { "check_asked_from_every_place_x_pending", 2 * CX_N * 3 * 3 * 2, 2 * CX_N * 3 * 3 * 2, sec_check_context, true },
         { "c_countdown_x_statistics_call_position", 4 * 8 * 10 * 3, 4 * 8 * 10 * 3, sec_c_stat_enum, true },
-        { "global_designation_after_earlier_allocations", 7 * 4 * 3 * 3 * 2, 7 * 4 * 3 * 3 * 2, sec_late_global, true },
+        { "global_designation_after_earlier_allocations", 7 * 4 * 3 * 3 * 2 * 4, 7 * 4 * 3 * 3 * 2 * 4, sec_late_global, true },
         { "failable_direct_random", 20000, 300000, sec_direct_random, false },
         { "failable_installed_random", 16000, 250000, sec_installed_random, false },
         { "c_countdown_random", 8000, 120000, sec_c_random, false },
